@@ -5,6 +5,9 @@ package absnfs
 import (
 	"bytes"
 	"fmt"
+	"os"
+	"strings"
+	"syscall"
 	"testing"
 
 	"verif.local/lib/evid"
@@ -75,6 +78,31 @@ func vfC25Episode(rec *evid.Rec, ep int) {
 	fail := func(sig, what string) {
 		rec.Violate(sig, fmt.Sprintf("%s [m=%d via %s]", what, m, how), map[string]any{"m": m, "how": how, "ops": append([]string(nil), ops...)})
 	}
+	// A backend that can hold huge sparse files would let an unchecked request through, refs
+	// cannot (1 MiB cap, and it must not allocate 2^63 bytes): so the monitor watches the
+	// backend boundary instead. A size-changing call beyond the limit that REACHES the backend
+	// is the witness that nothing in the server refused it; the hook fails it like a full disk.
+	var reached string
+	lim.fs.SetHook(func(op *refs.Op, ph refs.Phase) error {
+		if ph != refs.Before {
+			return nil
+		}
+		switch op.Name {
+		case "File.WriteAt":
+			if op.Len > 0 && (op.Off < 0 || op.Off > m || int64(op.Len) > m-op.Off) {
+				reached = fmt.Sprintf("%s(off=%d,len=%d)", op.Name, op.Off, op.Len)
+				return &os.PathError{Op: "write", Path: op.Path, Err: syscall.EFBIG}
+			}
+		case "Truncate", "File.Truncate":
+			if op.Off > m || op.Off < 0 {
+				reached = fmt.Sprintf("%s(size=%d)", op.Name, op.Off)
+				return &os.PathError{Op: "truncate", Path: op.Path, Err: syscall.EFBIG}
+			}
+		}
+		return nil
+	})
+	defer lim.fs.SetHook(nil)
+	huge := []uint64{1 << 31, 1<<32 - 1, 1 << 32, 1 << 40, 1 << 62, 1<<63 - 70000, 1<<63 - 64, 1<<63 - 8, 1<<63 - 2, 1<<63 - 1, 1 << 63, 1<<63 + 1, 1<<64 - 70000, 1<<64 - 2, 1<<64 - 1}
 	around := func() int64 {
 		switch rng.Intn(6) {
 		case 0:
@@ -91,7 +119,48 @@ func vfC25Episode(rec *evid.Rec, ep int) {
 	}
 	for i := 0; i < 30; i++ {
 		size := int64(len(model))
-		if rng.Intn(3) == 0 {
+		if i%5 == 4 { // offsets and sizes near 2^31, 2^32, 2^63 and 2^64: the sum offset+count must not wrap
+			hv := huge[rng.Intn(len(huge))]
+			reached = ""
+			var st uint32
+			var what string
+			rec.Eval(1)
+			if rng.Intn(3) == 0 {
+				what = fmt.Sprintf("SETATTR size=%d", hv)
+				ops = append(ops, what)
+				r, _ := lc.setattr(lh, xdrw.Sattr3{Size: xdrw.U64p(hv)})
+				if r == nil {
+					fail("C25/no-reply", what)
+					return
+				}
+				st = r.Status
+			} else {
+				n := []int{1, 7, 8, 64, 4096, 65536}[rng.Intn(6)]
+				what = fmt.Sprintf("WRITE off=%d len=%d", hv, n)
+				ops = append(ops, what)
+				r, _ := lc.write(lh, hv, 2, bytes.Repeat([]byte{0xEE}, n))
+				if r == nil {
+					fail("C25/no-reply", what)
+					return
+				}
+				st = r.Status
+			}
+			cls := "below-2^63"
+			if hv >= 1<<63 {
+				cls = "2^63-and-above" // not representable as a file offset: any refusal will do, FBIG is not demanded
+			}
+			kind := strings.Fields(what)[0]
+			if reached != "" {
+				fail("C25/over-limit-request-reached-backend/op="+kind+"/"+cls, fmt.Sprintf("%s: the backend was asked for %s", what, reached))
+				reached = ""
+			}
+			if st == 0 {
+				fail("C25/over-limit-not-refused/op="+kind+"/"+cls, what+" answered NFS3_OK")
+			} else if st != 27 && hv < 1<<63 {
+				fail("C25/over-limit-not-FBIG/op="+kind+"/huge", fmt.Sprintf("%s answered status %d, want NFS3ERR_FBIG", what, st))
+			}
+			rec.Distinct(fmt.Sprintf("m=%d|%s|%s|huge|%s|st=%d", m, how, kind, cls, st))
+		} else if rng.Intn(3) == 0 {
 			ns := around()
 			if ns < 0 {
 				ns = 0
@@ -170,6 +239,10 @@ func vfC25Episode(rec *evid.Rec, ep int) {
 				}
 			}
 			rec.Distinct(fmt.Sprintf("m=%d|%s|WRITE|%s|st=%d", m, how, rel, r.Status))
+		}
+		if reached != "" {
+			fail("C25/over-limit-request-reached-backend/op=any/around-limit", "the backend was asked for "+reached)
+			reached = ""
 		}
 		b, _ := lim.fs.Bytes("/f")
 		if int64(len(b)) > m {
